@@ -21,3 +21,44 @@ def table_api(arg):
         except Exception as e:
             out.append({"name": name, "exc": type(e).__name__})
     return out
+
+
+def parsed_vs_built(arg):
+    """the same table reached two ways - parsed out of a statement, and built from the spelled name through the public model class:
+    whenever the two compare equal they must hash equal and find each other in sets and dicts (also their schemas and a column owned by them)"""
+    import warnings
+    from sqllineage.core.models import Column, Table
+    from sqllineage.runner import LineageRunner
+
+    out = []
+    for sql, dialect, name in arg["cases"]:
+        rec = {"sql": sql, "dialect": dialect, "name": name}
+        try:
+            with warnings.catch_warnings():
+                warnings.simplefilter("ignore")
+                r = LineageRunner(sql, dialect=dialect)
+                tables = list(r.source_tables) + list(r.target_tables) + list(r.intermediate_tables)
+            b = Table(name)
+            rec["built"] = str(b)
+            rec["parsed"] = [str(t) for t in tables]
+            bad = []
+            for t in tables:
+                if not isinstance(t, Table):
+                    continue
+                if t == b:
+                    rec["equal_seen"] = True
+                    c1, c2 = Column("c1"), Column("c1")
+                    c1.parent, c2.parent = t, b
+                    if hash(t) != hash(b):
+                        bad.append("equal tables hash differently")
+                    if b not in {t} or {t: 1}.get(b) != 1:
+                        bad.append("equal table not found in a set/dict holding the other")
+                    if t.schema == b.schema and hash(t.schema) != hash(b.schema):
+                        bad.append("equal schemas hash differently")
+                    if c1 == c2 and (hash(c1) != hash(c2) or c2 not in {c1}):
+                        bad.append("equal columns of the two tables hash differently")
+            rec["bad"] = bad
+        except Exception as e:
+            rec["exc"] = type(e).__name__
+        out.append(rec)
+    return out
